@@ -233,7 +233,14 @@ def fam_trim(ctx, rng):
     dt = float(rng.choice([0.001, 0.004, 0.005, 0.01, 0.02, 0.05, 0.1, 1 / 75, 1 / 150]))
     x = [np.arange(n) * 1.0 + c * 1000.0 + rng.random(n) for c in range(3)]
     t = np.arange(n) * dt
-    cls = str(rng.choice(["on-samples", "between", "midway", "start-zero", "end-last", "end-last", "start>=end", "start<0", "end-beyond", "random"]))
+    cls = str(rng.choice(["on-samples", "between", "midway", "start-zero", "end-last", "end-last", "start>=end", "start<0", "end-beyond",
+                          "end-just-beyond", "end-just-beyond", "random"]))
+    if cls == "end-just-beyond":
+        # the end of the record as a function of (n, dt): any length, so that rounding in whatever expression the code
+        # uses for "time of the last sample" is exercised for many (n, dt) pairs
+        n = int(rng.integers(3, 1500))
+        x = [np.arange(n) * 1.0 + c * 1000.0 + rng.random(n) for c in range(3)]
+        t = np.arange(n) * dt
     i0, i1 = sorted(int(v) for v in rng.choice(n, size=2, replace=False))
     s, e = float(t[i0]), float(t[i1])
     if cls == "between":
@@ -253,6 +260,9 @@ def fam_trim(ctx, rng):
         s = -float(rng.uniform(1e-6, 5)) * dt
     elif cls == "end-beyond":
         e = float(t[-1] + rng.uniform(1e-3, 5) * dt)
+    elif cls == "end-just-beyond":
+        s = 0.0 if rng.random() < 0.5 else s
+        e = float(t[-1] + rng.choice([0.25, 0.5, 0.75, 1.0, float(rng.uniform(0.01, 1.0))]) * dt)
     elif cls == "random":
         s, e = sorted(float(v) for v in rng.uniform(0, t[-1], 2))
     on_rec = bool(rng.random() < 0.5)
